@@ -6,7 +6,7 @@ import vlib
 from runner import PropBase
 from vlib import Rng
 
-KEYS = ["mz", "st", "ga", "gA", "gr", "iv", "ch", "sp", "ip", "spn", "ipn", "rn", "vn", "cr", "cv", "sz", "fm", "mg", "mga", "g0", "sp0", "ip0", "sa", "ia", "ev"]
+KEYS = ["mz", "st", "ga", "gA", "gr", "iv", "ch", "sp", "ip", "spn", "ipn", "rn", "vn", "cr", "cv", "sz", "fm", "mg", "mga", "g0", "sp0", "ip0", "sa", "ia", "ev", "mf"]
 UNKNOWN = ["-", "foo", "$eip", "RAX", "Rsp", "x31", "r32", "g_r32", "g8", "pc.", "cpsr", "EIP", "zz"]
 
 
@@ -515,7 +515,7 @@ class C18(PropBase):
         if ans.startswith("P;;"):
             return "%s: a method panicked outside the guarded reads: %s" % (variant, ans[3:200])
         d = parse(ans)
-        if any(k not in d for k in KEYS + ["RG", "spm", "ipm", "sm", "mf", "ma"]):
+        if any(k not in d for k in KEYS + ["RG", "spm", "ipm", "sm", "ma"]):
             return "unparseable answer " + ans[:120]
         who = "%s %r" % (variant, "" if name == "-" else name)
         RG = lst(d["RG"])
